@@ -46,8 +46,8 @@ def hdrOf (text : List Nat) : Hdr :=
 def motionKv (f : List String) (model : String) : List String :=
   if kvN f "motiondefaults" == 1 then
     (if model == "lepton3.5" then ["thresh=28000", "delta=200"] else ["thresh=2900", "delta=50"]) ++
-    ["dyn=1", "tmin=0", "tmax=0", "count=3", "gap=45", "one=1", "trig=2", "warmer=1", "edge=1"] ++
-    f.filter fun s => !(["thresh=", "delta=", "dyn=", "tmin=", "tmax=", "count=", "gap=", "one=", "trig=", "warmer=", "edge="].any (s.startsWith ·))
+    ["dyn=1", "tmin=0", "tmax=0", "count=3", "gap=45", "one=1", "trig=2", "warmer=1", "edge=1", "verbose=0"] ++
+    f.filter fun s => !(["thresh=", "delta=", "dyn=", "tmin=", "tmax=", "count=", "gap=", "one=", "trig=", "warmer=", "edge=", "verbose="].any (s.startsWith ·))
   else f
 
 def cfgOf (f0 : List String) (h : Hdr) : PipeCfg :=
@@ -70,7 +70,7 @@ def motionYaml (f0 : List String) (model : String) (thresh : Nat) : String :=
   let b (k : String) : String := if kvN f k == 1 then "true" else "false"
   s!"dynamicthreshold: {b "dyn"}\ntempthreshmin: {kvN f "tmin"}\ntempthreshmax: {kvN f "tmax"}\ntempthresh: {kvN f "thresh"}\n" ++
   s!"deltathresh: {kvN f "delta"}\ncountthresh: {kvN f "count"}\nframecomparegap: {kvN f "gap"}\nuseonediffonly: {b "one"}\n" ++
-  s!"triggerframes: {kvN f "trig"}\nwarmeronly: {b "warmer"}\nedgepixels: {kvN f "edge"}\nverbose: false\ntriggeredthresh: {thresh}\n"
+  s!"triggerframes: {kvN f "trig"}\nwarmeronly: {b "warmer"}\nedgepixels: {kvN f "edge"}\nverbose: {b "verbose"}\ntriggeredthresh: {thresh}\n"
 
 /-- float32 bits of `(centiK − 27315)/100` computed in float64, as lepton3 + go-cptv do -/
 def tempBits (ck : Nat) : Nat :=
